@@ -931,7 +931,21 @@ func c14QueueDirWriters(c *ctx, dir string) {
 			if _, err := dumpStore(sto); err != nil {
 				c.violation(-1, "c14-call-fails:files:enum", where+": enumerate: "+err.Error(), nil)
 			}
-			time.Sleep(100 * time.Millisecond) // the clean-up the enumeration scheduled runs (or waits for the upload)
+			// the clean-up the enumeration scheduled runs (or waits for the upload): if it takes the fresh, still empty
+			// shard directory away, go on at once; else give it time (more than it needs on a loaded machine)
+			var leaf string
+			filepath.Walk(root, func(p string, fi os.FileInfo, err error) error {
+				if err == nil && fi.IsDir() && len(p) > len(leaf) {
+					leaf = p
+				}
+				return nil
+			})
+			for i := 0; i < 150; i++ {
+				if _, err := os.Stat(leaf); err != nil {
+					break
+				}
+				time.Sleep(10 * time.Millisecond)
+			}
 			close(g.release)
 			<-done
 		})
